@@ -196,6 +196,22 @@ static void runGrid(const Opt &o, Ev &ev) {
             }
         }
     }
+    // data calls after a block that is already complete - emitted in one call, as an array in either byte order, or streamed to
+    // its end: nothing is announced any more, so every non-empty data call is beyond the announced length (refused, one -310,
+    // no further result item), whatever its size relative to the finished block. (Empty data calls there are left open.)
+    for (size_t n = 0; n <= 12; n++) for (size_t extra : {(size_t) 1, n, n + 1, 2 * n}) {
+        if (extra == 0) continue;
+        OItem d; d.kind = O_BLOCKDATA; d.s = std::string(extra, 'X');
+        if (!run({mkBytes(O_BLOCK, n, o.seed + n), d, mkInt(8)})) return;
+        if (!run({mkInt(2), mkBytes(O_BLOCK, n, o.seed + n), d, d})) return;
+        OItem whole = mkBytes(O_BLOCKDATA, n, o.seed + n);
+        if (!run({mkHdr(n), whole, d, mkInt(8)})) return;
+        for (int elem = 0; elem < 10; elem++) for (int f : {(int) SCPI_FORMAT_NORMAL, (int) SCPI_FORMAT_SWAPPED}) {
+            OItem dd; dd.kind = O_BLOCKDATA; dd.s = std::string(extra == n ? n * kEsz[elem] : extra, 'Y');
+            if (dd.s.empty()) continue;
+            if (!run({mkArr(elem, f, n, o.seed + n), dd, mkInt(8)})) return;
+        }
+    }
     // blocks left incomplete (fewer bytes sent than announced) followed by another item: the block is not a result item yet
     for (size_t n : {1, 5, 12, 25, 100}) for (size_t sent = 0; sent < n; sent += (n > 12 ? n / 4 : 1)) {
         OItem d; d.kind = O_BLOCKDATA; d.s = std::string(sent, 'p');
@@ -213,7 +229,7 @@ static void runGrid(const Opt &o, Ev &ev) {
         if (!run({mkInt(1), mkHdr(n), d, mkUnit(), d2, mkUnit(), d2})) return;
         if (sent == n) { if (!run({mkHdr(n), d, mkUnit(), mkHdr(more), d2, mkUnit(), mkInt(2)})) return; }
     }
-    ev.exhaustive["all 10 element types x lengths 0..300 x NORMAL/SWAPPED; blocks 0..300; header-only lengths up to 999999999; every split of a streamed block of <= 12 bytes into <= 4 data calls with an over-length attempt at every point; blocks left at every fill level by one unit of a compound message and continued without a header by the next"] = true;
+    ev.exhaustive["all 10 element types x lengths 0..300 x NORMAL/SWAPPED; blocks 0..300; header-only lengths up to 999999999; every split of a streamed block of <= 12 bytes into <= 4 data calls with an over-length attempt at every point; non-empty data calls after blocks, arrays and streamed blocks of 0..12 elements that are already complete; blocks left at every fill level by one unit of a compound message and continued without a header by the next"] = true;
 }
 
 static std::vector<OItem> decodeUnit(Src &s);
@@ -259,9 +275,9 @@ static std::vector<OItem> decodeUnit(Src &s) {
     int n = (int) s.range(1, 5);
     for (int i = 0; i < n; i++) {
         switch (s.weighted({4, 2, 2, 3})) {
-            case 0: { OItem it = mkArr((int) s.range(0, 9), s.coin() ? SCPI_FORMAT_NORMAL : SCPI_FORMAT_SWAPPED, 0, 0); size_t k = s.prob(1, 4) ? s.range(0, 300) : s.range(0, 20); for (size_t j = 0; j < k; j++) { uint64_t x = s.prob(1, 3) ? s.u64() : (uint64_t) s.range(0, 0xffff); if (kEsz[it.elem] < 8) x &= (1ULL << (kEsz[it.elem] * 8)) - 1; it.arr.push_back(x); } v.push_back(it); break; }
+            case 0: { OItem it = mkArr((int) s.range(0, 9), s.coin() ? SCPI_FORMAT_NORMAL : SCPI_FORMAT_SWAPPED, 0, 0); size_t k = s.prob(1, 4) ? s.range(0, 300) : s.range(0, 20); for (size_t j = 0; j < k; j++) { uint64_t x = s.prob(1, 3) ? s.u64() : (uint64_t) s.range(0, 0xffff); if (kEsz[it.elem] < 8) x &= (1ULL << (kEsz[it.elem] * 8)) - 1; it.arr.push_back(x); } v.push_back(it); if (s.prob(1, 5)) { OItem d; d.kind = O_BLOCKDATA; d.s = std::string(s.coin() ? it.arr.size() * kEsz[it.elem] + (it.arr.empty() ? 1 : 0) : s.range(1, 6), 'S'); v.push_back(d); } break; }
             case 1: v.push_back(mkInt(s.irange(-100, 100))); break;
-            case 2: { OItem it; it.kind = O_BLOCK; size_t k = s.range(0, 40); for (size_t j = 0; j < k; j++) it.s += (char) s.range(0, 255); v.push_back(it); break; }
+            case 2: { OItem it; it.kind = O_BLOCK; size_t k = s.range(0, 40); for (size_t j = 0; j < k; j++) it.s += (char) s.range(0, 255); v.push_back(it); if (s.prob(1, 5)) { OItem d; d.kind = O_BLOCKDATA; d.s = std::string(s.coin() ? k + (k == 0 ? 1 : 0) : s.range(1, 6), 'S'); v.push_back(d); } break; }
             default: { // streamed block with optional over-length attempts
                 size_t total = s.prob(1, 5) ? s.range(0, 2000) : s.range(0, 30);
                 v.push_back(mkHdr(total));
